@@ -690,18 +690,3 @@ Proof.
   - split; assumption.
 Qed.
 
-Print Assumptions sphere_from_revolve_net.
-Print Assumptions torus_from_revolve_net.
-Print Assumptions solid_torus_from_revolve_net.
-Print Assumptions extrude_cartesian_rational.
-Print Assumptions cylinder_from_extrude_net.
-Print Assumptions solid_cylinder_from_extrude_net.
-Print Assumptions radial_interpolation.
-Print Assumptions disc_square_boundary.
-Print Assumptions disc_square_inside.
-Print Assumptions placement_frame.
-Print Assumptions sphere_factory_chain.
-Print Assumptions torus_factory_chain.
-Print Assumptions torus_placed.
-Print Assumptions cylinder_placed.
-Print Assumptions solid_cylinder_placed.
